@@ -80,6 +80,10 @@ def check_zone(bodies, confirmed=None, param_ranges=None, only_kinds=None, call_
                 r = call_discharge(b, bb, t, iv, st)
                 if r:
                     ok, why = True, r
+            if not ok and k in ("slice-index", "slice-op") and st is not None:
+                r = _slice_call(b, t, iv, st)
+                if r:
+                    ok, why = True, r
             if not ok and k == "arith-call" and st is not None:
                 r = _arith_call(b, t, iv, st)
                 if r:
@@ -89,6 +93,47 @@ def check_zone(bodies, confirmed=None, param_ranges=None, only_kinds=None, call_
                 ok, why = True, "confirmed: " + confirmed[key]
             res.add(kind=kind, body=b, bb=bb, line=t.line, ok=ok, why=why, key=key, iv=iv if keep_iv else None)
     return res
+
+
+def _range_agg(b, op):
+    """('Range'|'RangeTo'|'RangeFrom'|'RangeToInclusive', [operands]) for a range value built in place"""
+    l = op_local(op)
+    if l is None:
+        return None
+    sd = b.single_def(l)
+    if sd is None or hasattr(sd[2], "callee"):
+        return None
+    rv = sd[2]
+    if rv[0] == "use":
+        return _range_agg(b, rv[1])
+    if rv[0] == "agg" and rv[1][0] == "adt" and rv[1][1].startswith("core::ops::range::Range"):
+        return rv[1][1].split("::")[-1], rv[2]
+    return None
+
+
+def _slice_call(b, t, iv, st):
+    name = t.callee.split("::")[-1]
+    atys = t.d.get("atys") or []
+    if name in ("index", "index_mut") and len(t.args) == 2:
+        ra = _range_agg(b, t.args[1])
+        if ra is None:
+            return None
+        lt, lr = iv.slice_len(st, t.args[0], atys[0] if atys else None)
+        kind, ops = ra
+        if kind == "Range" and len(ops) == 2 and iv.le(st, ops[0], ops[1]) and iv.le_len(st, ops[1], lt, lr):
+            return "start <= end <= len on this path"
+        if kind == "RangeTo" and len(ops) == 1 and iv.le_len(st, ops[0], lt, lr):
+            return "end <= len on this path"
+        if kind == "RangeFrom" and len(ops) == 1 and iv.le_len(st, ops[0], lt, lr):
+            return "start <= len on this path"
+        if kind == "RangeFull":
+            return "full range"
+        return None
+    if name in ("split_at", "split_at_mut") and len(t.args) == 2:
+        lt, lr = iv.slice_len(st, t.args[0], atys[0] if atys else None)
+        if iv.le_len(st, t.args[1], lt, lr):
+            return "mid <= len on this path"
+    return None
 
 
 def _arith_call(b, t, iv, st):
